@@ -32,6 +32,7 @@ package main
 import (
 	"errors"
 	"fmt"
+	"os"
 	"strconv"
 	"strings"
 	"sync"
@@ -43,7 +44,7 @@ import (
 )
 
 func init() {
-	register(&Prop{ID: "C24", Gen: genC24, Run: runC24, Timeout: 30 * time.Second})
+	register(&Prop{ID: "C24", Gen: genC24, Run: runC24, Timeout: 600 * time.Second})
 }
 
 const c24Id = txsubmission.ProtocolId
@@ -62,6 +63,10 @@ func genC24(r *Rand, n int, tier string, emit func(string)) {
 			return 65536
 		case 4:
 			return int64(r.EdgeU64() >> 1)
+		case 6:
+			return 65536 + int64(r.Intn(20)) // would wrap to a small count if converted unchecked
+		case 7:
+			return int64(65536*(1+r.Intn(3))) + int64(1+r.Intn(10))
 		case 5:
 			return -int64(r.EdgeU64() >> 1)
 		default:
@@ -94,7 +99,13 @@ func genC24(r *Rand, n int, tier string, emit func(string)) {
 		if r.Chance(1, 2) {
 			sb.WriteString("srv")
 			steps := 1 + r.Intn(10)
-			big := r.Chance(1, 40) // at most one oversized reply per history, rare (2.8 MB each)
+			big := r.Chance(1, 20) // at most one oversized reply per history, rare (2.8 MB each)
+			if r.Chance(1, 8) {
+				// a conversation that ends with ids still to be acknowledged, then a new one:
+				// the first request after the restart must acknowledge nothing
+				fmt.Fprintf(&sb, " %s:%d:%d b:%d:done %s:%d:%d", Pick(r, "b", "n"), 1+r.Intn(20), 1+r.Intn(9),
+					1+r.Intn(10), Pick(r, "b", "n"), 1+r.Intn(20), r.Intn(9))
+			}
 			for j := 0; j < steps; j++ {
 				switch r.Intn(8) {
 				case 0:
@@ -111,6 +122,9 @@ func genC24(r *Rand, n int, tier string, emit func(string)) {
 					k := replyLen(req, big)
 					if k > 60000 {
 						big = false
+						// a multi-megabyte reply must not race the 10 s TxIdsNonBlocking
+						// state timeout on a loaded machine: ask for it with a blocking request
+						bl = "b"
 					}
 					fmt.Fprintf(&sb, " %s:%d:%d", bl, req, k)
 				}
@@ -220,7 +234,7 @@ func runC24Srv(steps []string) string {
 		select {
 		case <-initCh:
 			return true
-		case <-time.After(5 * time.Second):
+		case <-time.After(120 * time.Second):
 			return false
 		}
 	}
@@ -250,7 +264,7 @@ func runC24Srv(steps []string) string {
 				txs, err := srv.RequestTxs(ids)
 				resCh <- idsRes{len(txs), err}
 			}()
-			msg, err := l.peer.recv(c24Resp, 5*time.Second)
+			msg, err := l.peer.recv(c24Resp, 120*time.Second)
 			if err != nil {
 				return strings.Join(append(out, "nowire:"+err.Error()), " ")
 			}
@@ -274,7 +288,7 @@ func runC24Srv(steps []string) string {
 				} else {
 					out = append(out, fmt.Sprintf("t%d>%d", seen, r.n))
 				}
-			case <-time.After(5 * time.Second):
+			case <-time.After(120 * time.Second):
 				return strings.Join(append(out, "HANG"), " ")
 			}
 		case (p[0] == "b" || p[0] == "n") && len(p) == 3:
@@ -302,7 +316,7 @@ func runC24Srv(steps []string) string {
 			// either the call is refused at once, or a request appears on the wire
 			var msg []byte
 			var early *idsRes
-			deadline := time.Now().Add(5 * time.Second)
+			deadline := time.Now().Add(120 * time.Second)
 			for msg == nil && early == nil {
 				select {
 				case r := <-resCh:
@@ -350,18 +364,21 @@ func runC24Srv(steps []string) string {
 			var r idsRes
 			select {
 			case r = <-resCh:
-			case <-time.After(10 * time.Second):
+			case <-time.After(180 * time.Second):
 				return strings.Join(append(out, "HANG"), " ")
 			}
 			res := strconv.Itoa(r.n)
 			if r.err != nil {
 				res = c24ErrTok(r.err)
+				if res == "S" && os.Getenv("G5_DEBUG") != "" {
+					res += "[" + strings.ReplaceAll(l.firstErr(time.Second), " ", "_") + "]"
+				}
 			}
 			out = append(out, fmt.Sprintf("w%d/%d/%s>%s", wAck, wReq, bn, res))
 			if done {
 				// the server restarts its protocol instance; wait for the new
 				// instance, make sure it is registered, then start a new conversation
-				dl := time.Now().Add(5 * time.Second)
+				dl := time.Now().Add(120 * time.Second)
 				for srv.ProtocolInstance() == oldProto {
 					if time.Now().After(dl) {
 						return strings.Join(append(out, "norestart"), " ")
@@ -420,13 +437,13 @@ func runC24Cli(steps []string) string {
 	cli := txsubmission.NewClient(l.opts(protocol.ProtocolModeNodeToNode), &cfg)
 	cli.Start()
 	cli.Init()
-	if _, err := l.peer.recv(c24Id, 5*time.Second); err != nil {
+	if _, err := l.peer.recv(c24Id, 120*time.Second); err != nil {
 		return "no-init"
 	}
 	out := []string{}
 	// waitReply returns the next message from the client, or "" with the error text
 	waitReply := func() ([]byte, string) {
-		deadline := time.Now().Add(5 * time.Second)
+		deadline := time.Now().Add(120 * time.Second)
 		for {
 			select {
 			case e := <-l.errChan:
